@@ -66,6 +66,18 @@ func (m *Machine) findMessage(t types.Type, obj *Object, idx int) (types.Type, *
 	return nil, nil, nil, 0, false
 }
 
+// goSizeClass rounds a noscan allocation of n bytes up to the Go runtime's size class
+// (runtime/sizeclasses.go; unchanged since go1.16 for these sizes), page-rounded above 32 KiB.
+func goSizeClass(n int) int {
+	classes := []int{8, 16, 24, 32, 48, 64, 80, 96, 112, 128, 144, 160, 176, 192, 208, 224, 240, 256, 288, 320, 352, 384, 416, 448, 480, 512, 576, 640, 704, 768, 896, 1024, 1152, 1280, 1408, 1536, 1792, 2048, 2304, 2688, 3072, 3200, 3456, 4096, 4864, 5376, 6144, 6528, 6784, 6912, 8192, 9472, 9728, 10240, 10880, 12288, 13568, 14336, 16384, 18432, 19072, 20480, 21760, 24576, 27264, 28672, 32768}
+	for _, c := range classes {
+		if n <= c {
+			return c
+		}
+	}
+	return (n + 8191) / 8192 * 8192
+}
+
 // pbCopy deep-copies a message struct into proto3 normal form.
 // aliasOf, when non-nil, marks every new byte-slice object as derived from that object.
 func (m *Machine) pbCopy(st *types.Struct, src []value, aliasOf *Object, count *int) Agg {
@@ -103,11 +115,20 @@ func (m *Machine) pbCopy(st *types.Struct, src []value, aliasOf *Object, count *
 				dst[0] = Slice{obj: o, len: s.len, cap: s.len, esz: 1}
 				continue
 			}
-			o := m.newObject(s.len*s.esz, "pb:"+f.Name())
+			// a decoded []byte is `append([]byte{}, b...)`: its capacity is the allocator's size class and
+			// the slack is zero; code that re-slices up to cap must see that, as the native replay does
+			capn := s.len
+			if b, isB := u.Elem().Underlying().(*types.Basic); isB && b.Kind() == types.Uint8 && s.esz == 1 {
+				capn = goSizeClass(s.len)
+			}
+			o := m.newObject(capn*s.esz, "pb:"+f.Name())
 			copy(o.cells, s.obj.cells[s.off:s.off+s.len*s.esz])
+			for k := s.len * s.esz; k < capn*s.esz; k++ {
+				o.cells[k] = m.tb.Const(8, 0)
+			}
 			o.aliasOf = aliasOf
 			*count += s.len
-			dst[0] = Slice{obj: o, len: s.len, cap: s.len, esz: s.esz}
+			dst[0] = Slice{obj: o, len: s.len, cap: capn, esz: s.esz}
 		case *types.Pointer:
 			dst[0] = m.pbCopyPtr(u, cells[0].(Ptr), aliasOf, count)
 		case *types.Struct:
@@ -366,6 +387,119 @@ func init() {
 			return nil, true
 		}
 
+		// ---- sync.Map: sequential model (association list per map object) ----
+		smFind := func(m *Machine, o *Object, k value) int {
+			for i, e := range m.smaps[o] {
+				eq := m.valEq(e[0], k)
+				if eq.IsConst() {
+					if eq.k != 0 {
+						return i
+					}
+					continue
+				}
+				if m.branch(eq) {
+					return i
+				}
+			}
+			return -1
+		}
+		smSet := func(m *Machine, o *Object, lst [][2]value) {
+			old := m.smaps[o]
+			m.undoLog(func() { m.smaps[o] = old })
+			m.smaps[o] = lst
+		}
+		ic["(*sync.Map).Load"] = func(m *Machine, f *Frame, a []value) (value, bool) {
+			o := a[0].(Ptr).obj
+			m.stubsHit["sync.Map(sequential model)"]++
+			if i := smFind(m, o, a[1]); i >= 0 {
+				return Tuple{m.smaps[o][i][1], m.tb.True}, true
+			}
+			return Tuple{Iface{}, m.tb.False}, true
+		}
+		ic["(*sync.Map).Store"] = func(m *Machine, f *Frame, a []value) (value, bool) {
+			o := a[0].(Ptr).obj
+			lst := append([][2]value(nil), m.smaps[o]...)
+			if i := smFind(m, o, a[1]); i >= 0 {
+				lst[i] = [2]value{a[1], a[2]}
+			} else {
+				lst = append(lst, [2]value{a[1], a[2]})
+			}
+			smSet(m, o, lst)
+			return nil, true
+		}
+		ic["(*sync.Map).LoadOrStore"] = func(m *Machine, f *Frame, a []value) (value, bool) {
+			o := a[0].(Ptr).obj
+			if i := smFind(m, o, a[1]); i >= 0 {
+				return Tuple{m.smaps[o][i][1], m.tb.True}, true
+			}
+			lst := append(append([][2]value(nil), m.smaps[o]...), [2]value{a[1], a[2]})
+			smSet(m, o, lst)
+			return Tuple{a[2], m.tb.False}, true
+		}
+		ic["(*sync.Map).Delete"] = func(m *Machine, f *Frame, a []value) (value, bool) {
+			o := a[0].(Ptr).obj
+			if i := smFind(m, o, a[1]); i >= 0 {
+				lst := append([][2]value(nil), m.smaps[o]...)
+				lst = append(lst[:i], lst[i+1:]...)
+				smSet(m, o, lst)
+			}
+			return nil, true
+		}
+		for _, n := range []string{"(*sync.Mutex).Lock", "(*sync.Mutex).Unlock", "(*sync.RWMutex).Lock", "(*sync.RWMutex).Unlock", "(*sync.RWMutex).RLock", "(*sync.RWMutex).RUnlock"} {
+			ic[n] = func(m *Machine, f *Frame, a []value) (value, bool) {
+				m.stubsHit["sync mutex (no-op: sequential execution)"]++
+				return nil, true
+			}
+		}
+		ic["(*sync.Once).Do"] = func(m *Machine, f *Frame, a []value) (value, bool) {
+			o := a[0].(Ptr).obj
+			if m.onces[o] {
+				return nil, true
+			}
+			m.undoLog(func() { delete(m.onces, o) })
+			m.onces[o] = true
+			fv := a[1].(Func)
+			return m.callCont(fv.fn, nil, fv.env, func(m *Machine, r value) value { return nil }), true
+		}
+
+		// ---- sync/atomic.Value: the single interface cell of the struct holds the value ----
+		ic["(*sync/atomic.Value).Load"] = func(m *Machine, f *Frame, a []value) (value, bool) {
+			p := a[0].(Ptr)
+			m.stubsHit["sync/atomic.Value (sequential model)"]++
+			v := p.obj.cells[p.idx]
+			if v == nil {
+				return Iface{}, true
+			}
+			return v, true
+		}
+		ic["(*sync/atomic.Value).Store"] = func(m *Machine, f *Frame, a []value) (value, bool) {
+			p := a[0].(Ptr)
+			m.stubsHit["sync/atomic.Value (sequential model)"]++
+			if iv, ok := a[1].(Iface); !ok || iv.t == nil {
+				m.goPanicf("sync/atomic: store of nil value into Value")
+			}
+			m.write(p.obj, p.idx, a[1])
+			return nil, true
+		}
+		for _, w := range []string{"Int32", "Int64", "Uint32", "Uint64"} {
+			w := w
+			ic["sync/atomic.Load"+w] = func(m *Machine, f *Frame, a []value) (value, bool) {
+				p := a[0].(Ptr)
+				return p.obj.cells[p.idx], true
+			}
+			ic["sync/atomic.Store"+w] = func(m *Machine, f *Frame, a []value) (value, bool) {
+				p := a[0].(Ptr)
+				m.write(p.obj, p.idx, a[1])
+				return nil, true
+			}
+			ic["sync/atomic.Add"+w] = func(m *Machine, f *Frame, a []value) (value, bool) {
+				p := a[0].(Ptr)
+				nv := m.tb.Add(p.obj.cells[p.idx].(*Term), a[1].(*Term))
+				m.write(p.obj, p.idx, nv)
+				return nv, true
+			}
+		}
+
 		// ---- reflect.New and reflect.Type values ----
 		ic["reflect.New"] = func(m *Machine, f *Frame, a []value) (value, bool) {
 			rt := a[0].(Iface).v.(reflType)
@@ -396,6 +530,60 @@ func (m *Machine) reflTypeMethod(rt reflType, name string) *nativeFn {
 			}
 			m.goPanicf("reflect: Elem of invalid type %s", rt.t)
 			return nil
+		}}
+	case "NumField":
+		return &nativeFn{name: "Type.NumField", f: func(m *Machine, args []value) value {
+			st, ok := rt.t.Underlying().(*types.Struct)
+			if !ok {
+				m.goPanicf("reflect: NumField of non-struct type %s", rt.t)
+			}
+			return m.tb.Const(64, uint64(st.NumFields()))
+		}}
+	case "Len":
+		return &nativeFn{name: "Type.Len", f: func(m *Machine, args []value) value {
+			at, ok := rt.t.Underlying().(*types.Array)
+			if !ok {
+				m.goPanicf("reflect: Len of non-array type %s", rt.t)
+			}
+			return m.tb.Const(64, uint64(at.Len()))
+		}}
+	case "Field":
+		return &nativeFn{name: "Type.Field", f: func(m *Machine, args []value) value {
+			st, ok := rt.t.Underlying().(*types.Struct)
+			if !ok {
+				m.goPanicf("reflect: Field of non-struct type %s", rt.t)
+			}
+			i := m.concInt(args[0].(*Term), true, "reflect Field index")
+			if i < 0 || i >= st.NumFields() {
+				m.goPanicf("reflect: Field index out of bounds")
+			}
+			var sft *types.Struct
+			var sfNamed types.Type
+			for _, pk := range m.prog.AllPackages() {
+				if pk.Pkg.Path() == "reflect" {
+					sfNamed = pk.Pkg.Scope().Lookup("StructField").Type()
+					sft = sfNamed.Underlying().(*types.Struct)
+				}
+			}
+			out := make(Agg, m.ncells(sfNamed))
+			m.zeroCells(sfNamed, out)
+			fld := st.Field(i)
+			for k := 0; k < sft.NumFields(); k++ {
+				off := m.fieldOff(sft, k)
+				switch sft.Field(k).Name() {
+				case "Name":
+					out[off] = Str{s: fld.Name()}
+				case "Type":
+					out[off] = Iface{t: reflTypeT, v: reflType{fld.Type()}}
+				case "Anonymous":
+					out[off] = m.tb.Bool(fld.Embedded())
+				case "PkgPath":
+					if !fld.Exported() && fld.Pkg() != nil {
+						out[off] = Str{s: fld.Pkg().Path()}
+					}
+				}
+			}
+			return out
 		}}
 	case "String", "Name":
 		return &nativeFn{name: "Type.String", f: func(m *Machine, args []value) value {
